@@ -103,7 +103,7 @@ func cmdStruct(args []string) {
 	b := hx.NewBatch(*work)
 	b.WriteGoMod()
 	var src strings.Builder
-	src.WriteString("package p\n\nimport \"" + b.Mod + "/q\"\n\nvar _ q.TQ\n\nfunc Fn(x int) int { return x }\n\ntype DS struct {\n\tA int\n\tB int\n}\ntype DT struct {\n\tA int\n\tB int\n}\ntype FPS struct{ V int }\ntype UN struct{ X int }\ntype UNI struct {\n\tX     int\n\tExtra interface{}\n}\ntype USI struct{ N UNI }\ntype UTI struct{ N UNI }\ntype UTags map[string]int\ntype US struct {\n\tA  int\n\tN  UN\n\tP  *int\n\tL  []int\n\tM  map[string]int\n\tNM UTags\n}\ntype UT struct {\n\tA  int\n\tN  UN\n\tP  *int\n\tL  []int\n\tLS []string\n\tM  map[string]int\n\tNM UTags\n}\n\nfunc ToS(v []int) []string {\n\tif v == nil {\n\t\treturn []string{\"nil\"}\n\t}\n\treturn []string{\"7\"}\n}\n\ntype Money struct{ V int }\ntype Price struct{ V int }\ntype Cost struct{ V int }\ntype DS2 struct {\n\tA int\n\tM Money\n\tN Money\n}\ntype DT2 struct {\n\tA int\n\tM Price\n\tN Cost\n}\n\nfunc NewT2() *DT2 { return &DT2{A: 100} }\n\nfunc NewDL() []*struct{ A int } { return nil }\n\ntype MN struct {\n\tV    int\n\tNext *MN\n}\ntype MNO struct {\n\tV     int\n\tNextV int\n\tSum   int\n}\n\nfunc NextVal(n *MN) int {\n\tif n == nil {\n\t\treturn -1\n\t}\n\treturn n.V\n}\n\nfunc Summarize(n *MN) int {\n\tif n == nil || n.Next == nil {\n\t\treturn -1\n\t}\n\treturn n.V + n.Next.V\n}\n\ntype UNT struct {\n\tX       int\n\tHistory []int\n}\ntype UCS struct{ N UN }\ntype UCT struct{ N UNT }\ntype UNS struct{ L []int }\ntype UOS struct {\n\tA int\n\tN UNS\n}\ntype UOT struct {\n\tA int\n\tN UNS\n}\ntype UDS struct{ A int }\ntype UDT struct {\n\tA   int\n\tAll UDS\n}\ntype UWS struct{ V string }\ntype UWT struct{ V int }\n\nfunc AtoiU(s string) (int, error) { return 0, errBoom{} }\n\ntype errBoom struct{}\n\nfunc (errBoom) Error() string { return \"boom\" }\n\nfunc Twice(v int) int { return 2 * v }\n\nfunc NewUWT() UWT { return UWT{V: 100} }\n\nfunc NewDM() map[string]int { return map[string]int{\"origin\": 1} }\n\ntype DR struct {\n\tV    int\n\tKids []DR\n}\ntype DRO struct {\n\tV    int\n\tKeep int\n\tKids []DRO\n}\n\nfunc NewDRO() *DRO { return &DRO{Keep: 100} }\n\ntype DV struct{ V int }\ntype DVO struct {\n\tV    int\n\tKeep int\n}\n\nfunc NewDVO() *DVO { return &DVO{Keep: 100} }\n")
+	src.WriteString("package p\n\nimport \"" + b.Mod + "/q\"\n\nvar _ q.TQ\n\nfunc Fn(x int) int { return x }\n\ntype DS struct {\n\tA int\n\tB int\n}\ntype DT struct {\n\tA int\n\tB int\n}\ntype FPS struct{ V int }\ntype UN struct{ X int }\ntype UNI struct {\n\tX     int\n\tExtra interface{}\n}\ntype USI struct{ N UNI }\ntype UTI struct{ N UNI }\ntype UTags map[string]int\ntype US struct {\n\tA  int\n\tN  UN\n\tP  *int\n\tL  []int\n\tM  map[string]int\n\tNM UTags\n}\ntype UT struct {\n\tA  int\n\tN  UN\n\tP  *int\n\tL  []int\n\tLS []string\n\tM  map[string]int\n\tNM UTags\n}\n\nfunc ToS(v []int) []string {\n\tif v == nil {\n\t\treturn []string{\"nil\"}\n\t}\n\treturn []string{\"7\"}\n}\n\ntype Money struct{ V int }\ntype Price struct{ V int }\ntype Cost struct{ V int }\ntype DS2 struct {\n\tA int\n\tM Money\n\tN Money\n}\ntype DT2 struct {\n\tA int\n\tM Price\n\tN Cost\n}\n\nfunc NewT2() *DT2 { return &DT2{A: 100} }\n\nfunc NewDL() []*struct{ A int } { return nil }\n\ntype MN struct {\n\tV    int\n\tNext *MN\n}\ntype MNO struct {\n\tV     int\n\tNextV int\n\tSum   int\n\tSelf  *MN\n}\n\nfunc NextVal(n *MN) int {\n\tif n == nil {\n\t\treturn -1\n\t}\n\treturn n.V\n}\n\nfunc Summarize(n *MN) int {\n\tif n == nil || n.Next == nil {\n\t\treturn -1\n\t}\n\treturn n.V + n.Next.V\n}\n\ntype UNT struct {\n\tX       int\n\tHistory []int\n}\ntype UCS struct{ N UN }\ntype UCT struct{ N UNT }\ntype UNS struct{ L []int }\ntype UOS struct {\n\tA int\n\tN UNS\n}\ntype UOT struct {\n\tA int\n\tN UNS\n}\ntype UDS struct{ A int }\ntype UDT struct {\n\tA   int\n\tAll UDS\n}\ntype UWS struct{ V string }\ntype UWT struct{ V int }\n\nfunc AtoiU(s string) (int, error) { return 0, errBoom{} }\n\ntype errBoom struct{}\n\nfunc (errBoom) Error() string { return \"boom\" }\n\nfunc Twice(v int) int { return 2 * v }\n\nfunc NewUWT() UWT { return UWT{V: 100} }\n\nfunc NewDM() map[string]int { return map[string]int{\"origin\": 1} }\n\ntype DR struct {\n\tV    int\n\tKids []DR\n}\ntype DRO struct {\n\tV    int\n\tKeep int\n\tKids []DRO\n}\n\nfunc NewDRO() *DRO { return &DRO{Keep: 100} }\n\ntype DV struct{ V int }\ntype DVO struct {\n\tV    int\n\tKeep int\n}\n\nfunc NewDVO() *DVO { return &DVO{Keep: 100} }\n")
 	type drvCall struct {
 		Args []any `json:"args"`
 		Dump []int `json:"dump"`
@@ -371,7 +371,7 @@ func cmdStruct(args []string) {
 			fmt.Fprintf(&src, "\n// goverter:converter\n// goverter:ignoreMissing\n%stype C%d interface {\n\tAll(source []DV) []DVO\n\t// goverter:default NewDVO\n\t// goverter:default:update\n\tConv(source *DV) *DVO\n}\n", head(i), i)
 			drvLines[i]["ins"] = []any{ptrv(stv(lit(5)))}
 		case "mapfunc-parent":
-			fmt.Fprintf(&src, "\n// goverter:converter\n%stype C%d interface {\n\t// goverter:map Next NextV | NextVal\n\t// goverter:map . Sum | Summarize\n\tConv(source *MN) *MNO\n}\n", head(i), i)
+			fmt.Fprintf(&src, "\n// goverter:converter\n%stype C%d interface {\n\t// goverter:map Next NextV | NextVal\n\t// goverter:map . Sum | Summarize\n\t// goverter:map . Self\n\tConv(source *MN) *MNO\n}\n", head(i), i)
 			drvLines[i]["ins"] = []any{ptrv(stv(lit(5), ptrv(stv(lit(7), nilv()))))}
 		case "update-tnc":
 			fmt.Fprintf(&src, "\n// goverter:converter\n// goverter:ignoreMissing\n%stype C%d interface {\n\t// goverter:update target\n\t// goverter:update:ignoreZeroValueField:struct\n\tUpdate(source UCS, target *UCT)\n}\n", head(i), i)
@@ -692,13 +692,19 @@ func cmdStruct(args []string) {
 			obs.Write(base)
 		case "mapfunc-parent":
 			base["prog"] = s.Prog
-			base["res"] = map[string]any{"A": -2, "B": -2}
+			base["res"] = map[string]any{"A": -2, "B": -2, "selfShared": false, "selfV": -1}
 			for _, r := range byID[i] {
 				nExec++
 				if r["panic"] != true {
 					if out := r["out"].(map[string]any); out["k"] == "p" {
 						f := out["e"].(map[string]any)["fs"].([]any)
-						base["res"] = map[string]any{"A": litOf(f[1]), "B": litOf(f[2])}
+						res := map[string]any{"A": litOf(f[1]), "B": litOf(f[2]), "selfShared": false, "selfV": -1}
+						if sp, ok := f[3].(map[string]any); ok && sp["k"] == "p" {
+							lab, _ := sp["a"].(string)
+							res["selfShared"] = lab != "" && lab != "o"
+							res["selfV"] = litOf(sp["e"].(map[string]any)["fs"].([]any)[0])
+						}
+						base["res"] = res
 					}
 				}
 			}
